@@ -21,7 +21,9 @@ CONSTANTS Users,       \* {1, 2}
           MaxT,        \* time runs 0..MaxT
           MaxOps,
           Renewals,    \* subset of BOOLEAN: values of ~SessionRenewDisabled explored
-          SessLens     \* subset of {"short","long"}: configured session length explored
+          SessLens,    \* subset of {"short","long"}: configured session length explored
+          Forms,       \* header forms offered to AuthBegin (subset of {"none","token","bearer","phc","basic","jwt"})
+          Mgmt         \* management call groups enabled (subset of {"token","user","session"}); focused configs switch some off
 
 VARIABLES users,     \* user -> "active" | "inactive" | "absent"
           tokens,    \* token -> "none" | "active" | "inactive"
@@ -39,7 +41,7 @@ Max(a, b) == IF a > b THEN a ELSE b
 Idle == [phase |-> "idle", kind |-> "none", good |-> FALSE, snapExp |-> 0, cur |-> FALSE]
 
 \* header classes: [form, t, k]   form: how the Authorization header looks; t: which token it carries; k: session cookie (0 = none)
-Headers ==
+AllHeaders ==
   {[form |-> "none", t |-> 0, k |-> k] : k \in 0..3} \cup
   {[form |-> "token", t |-> t, k |-> 0] : t \in 1..3} \cup
   {[form |-> "token", t |-> 1, k |-> 1], [form |-> "token", t |-> 3, k |-> 1]} \cup     \* token wins over the cookie
@@ -47,6 +49,7 @@ Headers ==
   {[form |-> "phc", t |-> 1, k |-> 0]} \cup                 \* the stored hash of token 1 presented as a token
   {[form |-> "basic", t |-> 1, k |-> k] : k \in 0..1} \cup  \* unknown scheme: no token is extracted, a cookie still counts
   {[form |-> "jwt", t |-> 0, k |-> k] : k \in 0..1}         \* well-formed JWT signed with an unknown key
+Headers == {h \in AllHeaders : h.form \in Forms}
 
 HasTok(h)    == h.form \in {"token", "bearer", "phc", "jwt"}
 HasCookie(h) == h.k # 0
@@ -160,13 +163,13 @@ AuthEnd ==
   /\ UNCHANGED <<users, tokens, sessions, now, cfg>>
 
 Next ==
-  \/ \E t \in Users : TokenCreate(t)
-  \/ \E t \in Users, s \in {"active", "inactive"} : TokenSetStatus(t, s)
-  \/ \E t \in Users : TokenDelete(t)
-  \/ \E u \in Users, s \in {"active", "inactive"} : UserSetStatus(u, s)
-  \/ \E u \in Users : UserDelete(u)
-  \/ \E k \in Users : SessionCreate(k)
-  \/ \E k \in Users : SessionExpire(k)
+  \/ "token" \in Mgmt /\ \E t \in Users : TokenCreate(t)
+  \/ "token" \in Mgmt /\ \E t \in Users, s \in {"active", "inactive"} : TokenSetStatus(t, s)
+  \/ "token" \in Mgmt /\ \E t \in Users : TokenDelete(t)
+  \/ "user" \in Mgmt /\ \E u \in Users, s \in {"active", "inactive"} : UserSetStatus(u, s)
+  \/ "user" \in Mgmt /\ \E u \in Users : UserDelete(u)
+  \/ "session" \in Mgmt /\ \E k \in Users : SessionCreate(k)
+  \/ "session" \in Mgmt /\ \E k \in Users : SessionExpire(k)
   \/ Tick
   \/ \E h \in Headers : AuthBegin(h)
   \/ AuthEnd
